@@ -74,8 +74,8 @@ mem_pool_return_partial_bucket(ABTI_mem_pool_global_pool *p_global_pool,
                 num_headers_per_bucket) {
                 new_partial_bucket = partial_bucket_header->p_next;
                 new_partial_bucket->bucket_info.num_headers =
-                    num_headers_per_bucket -
-                    (num_headers_in_partial_bucket + num_headers_in_bucket);
+                    (num_headers_in_partial_bucket + num_headers_in_bucket) -
+                    num_headers_per_bucket;
             }
             partial_bucket_header->p_next = bucket;
             ABTI_mem_pool_return_bucket(p_global_pool,
